@@ -19,6 +19,18 @@ static Reg r_lambda12("lambda12", [](const Args& a) {
   std::string s; for (int i = 0; i < 15; ++i) { if (i) s += " "; s += hx(o[i]); } emit(s);
 });
 
+// invstart a f sbet1 cbet1 sbet2 cbet2 lam12 | tiny eps0 dn1 dn2 slam12 clam12  sig12 salp1 calp1 salp2 calp2 dnm   (outputs not written: 0)
+static Reg r_invstart("invstart", [](const Args& a) {
+  double ea = unhx(a[0]), f = unhx(a[1]), sbet1 = unhx(a[2]), cbet1 = unhx(a[3]), sbet2 = unhx(a[4]), cbet2 = unhx(a[5]), lam12 = unhx(a[6]);
+  Geodesic G(ea, f);
+  double dn1 = std::sqrt(1 + G._ep2 * Math::sq(sbet1)), dn2 = std::sqrt(1 + G._ep2 * Math::sq(sbet2));
+  double slam12 = std::sin(lam12), clam12 = std::cos(lam12);
+  double salp1 = 0, calp1 = 0, salp2 = 0, calp2 = 0, dnm = 0; double Ca[Geodesic::nC_];
+  double sig12 = G.InverseStart(sbet1, cbet1, dn1, sbet2, cbet2, dn2, lam12, slam12, clam12, salp1, calp1, salp2, calp2, dnm, Ca);
+  const double o[] = {G.tiny_, G.tol0_, dn1, dn2, slam12, clam12, sig12, salp1, calp1, salp2, calp2, dnm};
+  std::string s; for (int i = 0; i < 12; ++i) { if (i) s += " "; s += hx(o[i]); } emit(s);
+});
+
 // the reduced-latitude pair of a canonical problem as GenInverse forms it, a trial azimuth, the longitude difference
 inline void model_case(Rng& r, double ea, double f, double lat1, double lat2, double lon12) {
   if (!(f < 1)) return;
@@ -32,6 +44,8 @@ inline void model_case(Rng& r, double ea, double f, double lat1, double lat2, do
   double sa, ca, sl, cl; Math::sincosd(alp, sa, ca); Math::sincosd(std::fabs(Math::AngNormalize(lon12)), sl, cl);
   run("lambda12", {hx(ea), hx(f), hx(sb1), hx(cb1), hx(sb2), hx(cb2), hx(sa), hx(ca), hx(sl), hx(cl)});
   stratum(std::string("model-lambda12") + (std::fabs(f) <= 0.02 ? "" : "-large-f"));
+  run("invstart", {hx(ea), hx(f), hx(sb1), hx(cb1), hx(sb2), hx(cb2), hx(std::fabs(Math::AngNormalize(lon12)) * Math::degree())});
+  stratum(std::string("model-invstart") + (std::fabs(f) <= 0.02 ? "" : "-large-f"));
   // Astroid: the scaled antipodal coordinates (x <= 0 in the solver; the function itself is even in both)
   int k = r.irange(0, 7); double x, y;
   switch (k) {
